@@ -394,6 +394,7 @@ def run(ctx):
     ctx.attempt(inverse_map_rule, ctx, lib)
     ctx.attempt(motion_application_rule, ctx)
     ctx.attempt(location_candidates_rule, ctx)
+    ctx.attempt(mesh_motion_rule, ctx)
 
 
 def candidate_order_rule(ctx):
@@ -527,7 +528,11 @@ def inverse_map_rule(ctx, lib):
         return out
 
     names2 = [n for n in lib.names((2, 3)) if lib.get(n).shape in ("TRI", "QUAD", "TETRA", "HEXA", "PRISM")]
-    for name in names2:
+    # an orthonormal rational frame: columns = the element's own axes (i, j, k) in space
+    FR = [[Q(2, 3), Q(-2, 3), Q(1, 3)], [Q(2, 3), Q(1, 3), Q(-2, 3)], [Q(1, 3), Q(2, 3), Q(2, 3)]]
+    ORG = [Q(1, 2), Q(-3), Q(7, 5)]
+    variants = [(n, False) for n in names2] + [(n, True) for n in ("QUAD4", "QUAD8", "TRI6")]
+    for name, embedded in variants:
         ed = lib.get(name)
         if ed.order > 2 and ed.shape in ("HEXA", "PRISM"):
             continue
@@ -535,6 +540,13 @@ def inverse_map_rule(ctx, lib):
         ch = Chain(lib, name, symbolic_vertices=False)
         dim = ed.dim
         I = ch.I
+        label = f"{name} embedded in space (plane through (1/2, -3, 7/5), rational orthonormal axes)" if embedded else name
+        if embedded:
+            # place the plane element in space: X = ORG + x i + y j; the element's frame is handed out by _Get_sysCoord_e
+            glob = [[ORG[c] + row[0] * FR[c][0] + row[1] * FR[c][1] for c in range(3)] for row in ch.node_coords]
+            ch.obj.attrs["coord"] = XArray.from_nested(glob)
+            ch.obj.attrs["inDim"] = 3
+            ch.obj.attrs["_Get_sysCoord_e"] = lambda *a, **k: XArray((1, 3, 3), [FR[i][j] for i in range(3) for j in range(3)])
         coordElem = XArray.from_nested(ch.node_coords)
         env = {"self": ch.obj}
         env.update({nm: 0 for nm in loop_names})
@@ -559,16 +571,22 @@ def inverse_map_rule(ctx, lib):
                     continue  # not needed on this path (e.g. Gauss-point data of the affine branch)
             fn_clo = I.run_statements([inner], env, mi, [res_name], cls=f.cls)[0]
             xi = XArray((dim,), [Poly.var(v) for v in ed.vars])
-            xP = XArray((dim,), ch.x_of_xi())
+            if embedded:
+                # the query point is x(xi) in space; the code projects it on the element's axes the way it projects the nodes
+                xloc = ch.x_of_xi()
+                xg = [Poly.const(ORG[c]) + xloc[0] * FR[c][0] + xloc[1] * FR[c][1] for c in range(3)]
+                xP = XArray((dim,), [sum((xg[c] * FR[c][k] for c in range(3)), Poly()) for k in range(dim)])
+            else:
+                xP = XArray((dim,), ch.x_of_xi())
             J = XArray.from_nested(fn_clo(xi, xP))
         except XRaise as e:
-            r.fail(f.qualname, f"residual:{ed.shape}", f.file, inner.lineno, "_Get_Mapping", f"{name}: the residual raises {e}")
+            r.fail(f.qualname, f"residual:{ed.shape}{':embedded' if embedded else ''}", f.file, inner.lineno, "_Get_Mapping", f"{label}: the residual raises {e}")
             continue
         bad = [k for k, v in enumerate(J.data) if not is_zero(v)]
         if bad:
-            r.fail(f.qualname, f"residual:{ed.shape}", f.file, inner.lineno, "_Get_Mapping", f"{name}: on a general straight-sided element the residual handed to least_squares does not vanish at the point whose image is the query point (component {bad[0]}: {J.data[bad[0]]!r}): located points get wrong reference coordinates, so interpolated values are wrong on every non-parallelogram element")
+            r.fail(f.qualname, f"residual:{ed.shape}{':embedded' if embedded else ''}", f.file, inner.lineno, "_Get_Mapping", f"{label}: on a general straight-sided element the residual handed to least_squares does not vanish at the point whose image is the query point (component {bad[0]}: {str(J.data[bad[0]])[:120]}): located points get wrong reference coordinates, so interpolated values are wrong on every non-parallelogram element")
         else:
-            r.ok(f"{name}: residual(xi, x(xi)) == 0 identically on a generic straight-sided geometry")
+            r.ok(f"{label}: residual(xi, x(xi)) == 0 identically on a generic straight-sided geometry")
     # affine closed form on simplices
     for name in [n for n in names2 if lib.get(n).shape in ("TRI", "TETRA")]:
         ed = lib.get(name)
@@ -758,3 +776,55 @@ def location_candidates_rule(ctx):
             r.ok(f"D({dx}, {dy}), point ({x}, {y}) alone: candidates {got} hold element {holder}")
         else:
             r.fail(f.qualname, "candidates", f.file, f.lineno, "_Get_nearby_elements", f"nodes A(0,0) B(10,0) C(5,3) D({dx},{dy}), triangles ABC and ADB, single query point ({x}, {y}): it lies in element {holder} but the candidate elements are {got}: the point is not located and the evaluated field is 0 there")
+
+
+def mesh_motion_rule(ctx, rid="R8.15"):
+    """Mesh.Translate / Rotate / Symmetry and the coord setter move EVERY element group of the mesh -- the main groups,
+    their boundary groups and the point group share the coordinates -- by the same motion, then notify the observers.
+    The four mutators are interpreted on a mesh of three recorder groups (dimension 2, 1 and 0)."""
+    from ..xeval import FuncInfo
+
+    repo = ctx.repo
+    r = ctx.rule(rid, "mesh motions: Translate / Rotate / Symmetry / coord assignment hand the moved coordinates to every element group (all dimensions) and notify", min_instances=4)
+    mesh = repo.cls("EasyFEA.FEM._mesh.Mesh")
+
+    class G:
+        _xeval_open = True
+
+        def __init__(self, dim, coord):
+            self.dim, self.inDim = dim, 2
+            self.nodes = XArray((3,), [0, 1, 2])
+            self.coord = coord
+            self.Ncoords = 3
+
+    old = XArray((3, 3), [Poly.var(f"x{n}{c}") for n in range(3) for c in range(3)])
+    moved = XArray((3, 3), [Poly.var(f"m{n}{c}") for n in range(3) for c in range(3)])
+    d = [Poly.var("dx"), Poly.var("dy"), Poly.var("dz")]
+    cases = [
+        ("Translate", mesh.methods["Translate"], list(d), XArray((3, 3), [old[n, c] + d[c] for n in range(3) for c in range(3)])),
+        ("Rotate", mesh.methods["Rotate"], [Q(30)], moved),
+        ("Symmetry", mesh.methods["Symmetry"], [], moved),
+        ("coord = ...", mesh.setters["coord"], [moved], moved),
+    ]
+    for label, f, args, want in cases:
+        r.instance(fn=f.qualname)
+        groups = {"TRI3": G(2, XArray(old.shape, list(old.data))), "SEG2": G(1, XArray(old.shape, list(old.data))), "POINT": G(0, XArray(old.shape, list(old.data)))}
+        notes = []
+        obj = XObj(mesh, {mesh.mangle("__dict_groupElem"): groups, mesh.mangle("__dim"): 2, "_Notify": lambda *a, **k: notes.append(a)})
+
+        def hook(fn, a, k):
+            fi = fn if isinstance(fn, FuncInfo) else getattr(fn, "finfo", None)
+            if isinstance(fi, FuncInfo) and fi.module.name.endswith("Geoms._utils") and fi.name in ("Rotate", "Symmetry"):
+                return XArray(moved.shape, list(moved.data))
+            return NotImplemented
+
+        I = Interp(repo)
+        I.call_hook = hook
+        I.call_function(f, args, self_obj=obj)
+        stale = [t for t, g in groups.items() if not (isinstance(g.coord, XArray) and g.coord.shape == want.shape and all(is_zero(Poly.of(a) - Poly.of(b)) for a, b in zip(g.coord.data, want.data)))]
+        if stale:
+            r.fail(f.qualname, f"motion:{label}", f.file, f.lineno, f"Mesh.{label}", f"Mesh.{label}: the element group(s) {stale} keep their coordinates (or receive other ones): boundary normals, boundary integrals and the measure after the next motion are computed from two different geometries")
+        elif not notes:
+            r.fail(f.qualname, f"notify:{label}", f.file, f.lineno, f"Mesh.{label}", f"Mesh.{label} does not notify the observers")
+        else:
+            r.ok(f"Mesh.{label}: every group moved, observers notified")
